@@ -84,17 +84,18 @@ class Crash:
             return False, {'note': 'no real-FS replay for sqlite crash points'}
         cat = label.split(':')[1]
         prior = assignment['vars'].get('nprior0', self.cfg.get('prior') or 0) if self.cfg.get('prior') is None else self.cfg['prior']
-        key = prior
+        buffered = bool(assignment['vars'].get('buffered0', False))
+        key = (prior, buffered)
         if not hasattr(self, '_sweeps'):
             self._sweeps = {}
         if key not in self._sweeps:
-            self._sweeps[key] = self.sweep(prior)
+            self._sweeps[key] = self.sweep(prior, buffered)
         hits = [(i, r) for i, r in self._sweeps[key] if cat in r.get('categories', [])]
         if self.cfg.get('canary'):
             return True, {'canary': 'symbolic canary (negated oracle); real sweep ran %d crash points' % len(self._sweeps[key])}
         return bool(hits), {'real_crash_points': len(self._sweeps[key]), 'confirming': hits[:2]}
 
-    def sweep(self, prior):
+    def sweep(self, prior, buffered=False):
         import json, subprocess, sys
         here = os.path.dirname(os.path.dirname(os.path.abspath(__file__)))
         repo = os.environ.get('KLEPTO_VERIF_REPO', '/repo')
@@ -103,7 +104,7 @@ class Crash:
         for ci in range(0, 60):
             d = tempfile.mkdtemp(prefix='ksym_crash_')
             try:
-                inp = json.dumps({'cfg': self.cfg, 'prior': prior, 'crash': ci})
+                inp = json.dumps({'cfg': dict(self.cfg, buffered=buffered), 'prior': prior, 'crash': ci})
                 p = subprocess.run([sys.executable, '-c', pre + 'crash.real_writer(d["cfg"], d["prior"], d["crash"])\n'],
                                    input=inp, capture_output=True, text=True, cwd=d, timeout=120)
                 q = subprocess.run([sys.executable, '-c', pre + 'print(json.dumps(crash.real_reader(d["cfg"], d["prior"])))\n'],
@@ -142,6 +143,8 @@ class Crash:
             raise PathPruned()
         v2, v3 = ctx.atom(ValSort, 'n'), ctx.atom(ValSort, 'n')
         new = dict(old)
+        if not kind.startswith('sql'):
+            fs.buffered = ctx.bool('buffered')     # data of the operation reaches the file at write() or only at flush/close
         crash = ctx.int('crash', lo=0, hi=80)
         st = {'n': 0, 'frozen': False, 'last': None, 'missing': None}
         mut = posixfs.MUTATING
@@ -322,11 +325,20 @@ def real_writer(cfg, prior, crash):
         setattr(_os, name, wrap(getattr(_os, name)))
     real_open = builtins.open
 
+    buffered = bool(cfg.get('buffered'))
+
     class WFile:
         def __init__(self, f):
             self.f = f
+            self.pending = []
 
         def write(self, data):
+            if buffered:                      # small data: stays in the userspace buffer until close
+                self.pending.append(data)
+                return len(data)
+            return self._write(data)
+
+        def _write(self, data):
             if count[0] == crash:
                 self.f.flush(); _os._exit(9)
             count[0] += 1
@@ -344,7 +356,16 @@ def real_writer(cfg, prior, crash):
         def __exit__(self, *a):
             self.close()
 
+        def flush(self):
+            for data in self.pending:
+                self._write(data)
+            self.pending = []
+            self.f.flush()
+
         def close(self):
+            for data in self.pending:
+                self._write(data)
+            self.pending = []
             if count[0] == crash:
                 self.f.flush(); _os._exit(9)
             count[0] += 1
